@@ -100,6 +100,26 @@ def apply(st: St, op: list) -> None:
             st.A = Angle(op[1], op[2], op[3])
         elif k == 'A_new_iter':
             st.A = Angle([op[1], op[2]], 0.0, op[1])
+        elif k == 'A_deprecated':
+            # older entry points that still hand out angles / rotate in place
+            import warnings
+            with warnings.catch_warnings():
+                warnings.simplefilter('ignore', DeprecationWarning)
+                for axis in (Vec(op[1] or 1.0, 0, 0), Vec(0, -1.0, 0), Vec(0, 0, op[1] or 1.0)):
+                    res.append(axis.rotation_around(op[1]))
+                st.A = Vec(0, 0, 1.0).rotation_around(op[1])
+                try:
+                    res.append(Vec(1, 0, 0).to_angle_roll(Vec(0, 0, 1)))
+                    res.append((Vec(1, 0, 0) @ A).to_angle_roll(Vec(0, 0, 1) @ A))
+                except (ValueError, ZeroDivisionError):
+                    pass
+                V.rotate_by_str(str(st.FA), roll=op[1])
+                V.rotate(op[1], A.yaw, -op[1])
+            st.M = Matrix.from_angstr(str(A), roll=op[1])
+            res.append(FrozenMatrix.from_angstr(st.FA))
+            res.append((1.0, 2.0, 3.0) @ st.WM)
+            res.append(st.WV @ M)
+            res.append(st.WM.forward(2.0))
         elif k == 'A_from_vecobj':
             # the single-argument constructor forms: a vector object, a frozen vector, the V register (any magnitude)
             st.A = Angle(Vec(op[1], -op[1], 720.0 + op[1]))
@@ -380,6 +400,7 @@ class Model(bfs.Model):
             ops.append(['A_with_axes', kv])
             ops.append(['A_from_V', kv])
             ops.append(['A_from_vecobj', kv])
+            ops.append(['A_deprecated', kv])
         for s in SCALES:
             ops.append(['A_imul', s])
             ops.append(['A_mul', s])
@@ -447,6 +468,12 @@ class Model(bfs.Model):
         # (3) canonical text
         for name, obj, comps in (('A', st.A, abits), ('FA', st.FA, abits), ('V', st.V, vbits), ('FV', st.FV, vbits)):
             text = str(obj)
+            # the other documented string forms agree with str(): join(' '), format() with an empty spec, f-strings; join(', ') joins the same numbers
+            forms = {'join': obj.join(' '), 'format': format(obj, ''), 'fstring': f'{obj}', 'join_comma': obj.join(', ').replace(', ', ' ')}
+            odd = [(k, v) for k, v in forms.items() if v != text]
+            if odd:
+                acc.fail('text_forms_disagree', case, f'history={history}\n str({name}) = {text!r} but {odd[0][0]} gives {odd[0][1]!r}', op=lastop)
+                continue
             parts = text.split(' ')
             vals = list(obj)
             probs = [] if len(parts) == 3 else [(False, f'{len(parts)} components')]
